@@ -313,4 +313,88 @@ def r11_3(ctx):
     return out
 
 
-RULES = [r11_1, r11_2, r11_3]
+def r11_4(ctx):
+    """abstract runs (W) of the in-place transformations with arguments of the wrong kind (numeric strings, bytes, None,
+    lists ...): the stand-in shape is made of stand-in curves made of stand-in points whose move / scale / rotate are
+    the repository's own methods, interpreted on exact coordinates.  If the call raises, no coordinate may differ."""
+    import math
+    from fractions import Fraction as Fr
+    from verifkit.absrun import Obj, Runner
+    from verifkit.finite import Raised, Undecided
+    from rules.C16 import point2d, PV
+    out = Outcome("R11.4", "an in-place transformation that rejects its arguments leaves every coordinate unchanged "
+                           "(argument kinds: numeric string, bytes, None, list, pair where a number is required, wrong "
+                           "arity)", floor=6)
+    NAMES = ("move", "scale", "rotate")
+    BAD = {"scale": [(2, "3"), ("2", 3), (2, None), (None, 2), (2, b"3"), (2, [1]), ((1, 2), 3), (Fr(1, 2), "x")],
+           "rotate": [("30",), (None,), ("30", True), ([1],), (b"1",)],
+           "move": [("12",), (1, "2"), (("1", 2),), (None,), (1, 2, 3), ((1, None),)]}
+
+    def world():
+        pts = [[PtObj(f"p{c}{i}", _x=Fr(2 * i + 1 + 10 * c), _y=Fr(3 * i - 2 + 7 * c), is_point=True) for i in range(3)]
+               for c in range(2)]
+        curves = [Obj(f"j{c}", vertices=tuple(pts[c]), is_curve=True,
+                      segments=tuple(Obj(f"j{c}s{i}", ctrlpoints=(pts[c][i], pts[c][(i + 1) % 3])) for i in range(3)),
+                      **{"__lenght": None}) for c in range(2)]
+        shape = Obj("S", jordans=tuple(curves), subshapes=())
+        return shape, curves, [p for c in pts for p in c]
+
+    def hook(rn, ev, call, cname, recv, args, kwargs):
+        if cname == "Point2D":
+            if len(args) == 1 and isinstance(args[0], Obj) and getattr(args[0], "is_point", False):
+                return args[0]
+            v = point2d(*args)
+            return PtObj("vec", _x=v.x, _y=v.y, is_point=True)
+        if cname in NAMES and isinstance(recv, Obj) and getattr(recv, "is_curve", False):
+            rn.call_fn(ctx.fn(f"jordancurve.JordanCurve.{cname}"), [recv] + list(args), kwargs)
+            return recv
+        if cname in NAMES and isinstance(recv, Obj) and getattr(recv, "is_point", False):
+            rn.call_fn(ctx.fn(f"polygon.Point2D.{cname}"), [recv] + list(args), kwargs)
+            return recv
+        if cname == "__getitem__" or (cname is None):
+            return NotImplemented
+        return NotImplemented
+
+    class PtObj(Obj):                     # vector[0] / vector[1] / tuple(point) on a stand-in point
+        def __getitem__(self, i):
+            return (self._x, self._y)[i]
+
+        def __iter__(self):
+            return iter((self._x, self._y))
+    ext = {"np.cos": lambda a: math.cos(a), "np.sin": lambda a: math.sin(a), "math.cos": math.cos, "math.sin": math.sin,
+           "np.asarray": lambda x, dtype=None: float(x), "math.radians": math.radians}
+    for qbase, level in (("shape.DefinedShape", "shape"), ("jordancurve.JordanCurve", "curve")):
+        for name in NAMES:
+            fn = ctx.fn(f"{qbase}.{name}")
+            worst, und = None, None
+            for args in BAD[name]:
+                shape, curves, pts = world()
+                target = shape if level == "shape" else curves[0]
+                before = [(p._x, p._y) for p in pts]
+                raised = None
+                try:
+                    Runner(ctx, set(), hook, ext=ext).call_fn(fn, [target] + list(args))
+                except Undecided as ex:
+                    und = und or f"{name}{args!r}: {ex}"
+                    continue
+                except (Raised, TypeError, ValueError, AttributeError, ArithmeticError, IndexError, KeyError) as ex:
+                    raised = type(ex).__name__ if not isinstance(ex, Raised) else str(ex.what)
+                if raised is None:
+                    continue                   # accepted (e.g. a numeric string times an int): not a rejection
+                after = [(p._x, p._y) for p in pts]
+                changed = [i for i, (a, b) in enumerate(zip(before, after)) if a != b]
+                if changed and worst is None:
+                    i = changed[0]
+                    worst = (f"{name}{args!r} raises {raised} after {len(changed)} of {len(pts)} control points were "
+                             f"written (point {i}: {tuple(map(str, before[i]))} -> {tuple(map(str, after[i]))})")
+            if worst:
+                out.bad(fn.qname, "a rejected argument leaves the figure partially transformed", where=fn.where(), detail=worst)
+            elif und:
+                out.undecided(fn.qname, und, where=fn.where())
+            else:
+                out.ok(fn.qname, f"{len(BAD[name])} kinds of invalid arguments: rejected before the first coordinate write "
+                                 f"(or accepted)", where=fn.where())
+    return out
+
+
+RULES = [r11_1, r11_2, r11_3, r11_4]
